@@ -216,6 +216,12 @@ func zzvC16Row(res *vrep.Result, base string, row zzvRow) {
 		if !row.Crashes && exit != 0 {
 			fail("child-exit", "child entry ended with exit=%d", exit)
 		}
+		if modeOff {
+			// the mode can be switched off between the parent's decision and the child's start
+			if d := before.Diff(after); len(d) > 0 {
+				fail("mode-off-wrote", "telemetry child with mode off, yet %v", d)
+			}
+		}
 		res.Class("marker1")
 	case "2":
 		if len(spawns) != 0 {
